@@ -38,7 +38,20 @@ def run(ctx) -> None:
     node_calls = [c for c in calls_in(vn) if call_name(c) == "node" and u(c.func.value) in ("graph", "sub")]
     ok = len(node_calls) == 2
     # exactly one node statement on every path: the two are on different branches of the children test
-    branch = [n for n in ast.walk(vn) if isinstance(n, ast.If) and u(n.test) in ("hugr.children(node)", "len(hugr.children(node)) > 0")]
+    # locals that stand for hugr.children(node) (assignment or walrus)
+    ch_alias = {"hugr.children(node)"}
+    for n in ast.walk(vn):
+        if isinstance(n, ast.Assign) and isinstance(n.targets[0], ast.Name) and u(n.value) == "hugr.children(node)":
+            ch_alias.add(n.targets[0].id)
+        if isinstance(n, ast.NamedExpr) and u(n.value) == "hugr.children(node)":
+            ch_alias.add(n.target.id)
+
+    def is_children_test(t):
+        if isinstance(t, ast.NamedExpr):
+            return u(t.value) == "hugr.children(node)"
+        s_ = u(t)
+        return s_ in ch_alias or any(s_ == f"len({a}) > 0" for a in ch_alias)
+    branch = [n for n in ast.walk(vn) if isinstance(n, ast.If) and is_children_test(n.test)]
     ok = ok and len(branch) == 1
     if ok:
         in_body = [c for c in node_calls if any(c in list(ast.walk(s)) for s in branch[0].body)]
@@ -64,7 +77,7 @@ def run(ctx) -> None:
         if ok:
             w = withs[0]
             loops = [n for n in w.body if isinstance(n, ast.For)]
-            ok = len(loops) == 1 and u(loops[0].iter) == "hugr.children(node)" and len(loops[0].body) == 1 and u(loops[0].body[0]) == f"self._viz_node({u(loops[0].target)}, hugr, sub)" \
+            ok = len(loops) == 1 and u(loops[0].iter) in ch_alias and len(loops[0].body) == 1 and u(loops[0].body[0]) == f"self._viz_node({u(loops[0].target)}, hugr, sub)" \
                 and not any(isinstance(x, (ast.If, ast.Continue, ast.Break)) for x in ast.walk(loops[0]))
         ctx.check(ok, "C20.R1", "_viz_node: one cluster per parent, every child recursed inside it", m.path, vn.lineno,
                   "a node with children opens cluster<idx> and draws each child (no filter) into that cluster, so clusters nest as the hierarchy does", vn)
@@ -135,6 +148,21 @@ def run(ctx) -> None:
     # ---- R4: effect analysis over every method of the renderer
     bad = []
     for name, fn in dr.methods.items():
+        # locals bound to values obtained from the hugr (children lists, node data, metadata dicts, ops) are hugr state too
+        derived = {"hugr", "node", "op", "meta", "src_port", "tgt_port", "kind"}
+        for n in ast.walk(fn):
+            tgt, v = None, None
+            if isinstance(n, ast.Assign) and len(n.targets) == 1 and isinstance(n.targets[0], ast.Name):
+                tgt, v = n.targets[0].id, n.value
+            elif isinstance(n, ast.NamedExpr):
+                tgt, v = n.target.id, n.value
+            if tgt is not None and v is not None and (u(v).startswith("hugr.") or u(v).startswith("hugr[")) and not isinstance(v, ast.ListComp):
+                if not (isinstance(v, ast.Call) and call_name(v) in ("num_in_ports", "num_out_ports", "port_kind", "links")):
+                    derived.add(tgt)
+        for n in ast.walk(fn):
+            if isinstance(n, ast.Call) and isinstance(n.func, ast.Attribute) and isinstance(n.func.value, ast.Name) and n.func.value.id in derived \
+                    and n.func.attr in (LIST_MUT | {"update", "setdefault", "pop", "popitem", "clear", "sort", "reverse"}):
+                bad.append(n)
         for n in ast.walk(fn):
             if isinstance(n, (ast.Assign, ast.AugAssign, ast.Delete)):
                 tgs = n.targets if isinstance(n, (ast.Assign, ast.Delete)) else [n.target]
@@ -172,6 +200,9 @@ def run(ctx) -> None:
     ok = len(q) == 1 and u(q[0].test) == "isinstance(op, AsExtOp) and (not self.config.qualify_op_name)"
     pal_struct = [n for n in ast.walk(dr.node) if isinstance(n, (ast.If, ast.While, ast.For, ast.IfExp)) and "palette" in u(n.test if not isinstance(n, ast.For) else n.iter)]
     ctx.check(ok and not pal_struct, "C20.R5", "qualify_op_name only selects the display name; palette never steers control flow", m.path, vn.lineno, "", vn)
+    from .. import lints
+    lints.arm(ctx)
+
 
 
 # ---------------------------------------------------------------------------------------
